@@ -35,7 +35,8 @@ class _Worker(threading.Thread):
         )
         env.pop("PYTHONPATH", None)
         self.proc = subprocess.Popen(
-            [PYTHON, "-u", "-X", "faulthandler", os.path.join(HERE, "worker.py"), self.pool.repo],
+            [PYTHON, "-u", "-X", "faulthandler",
+             os.path.join(HERE, os.environ.get("VERIF_WORKER_SCRIPT", "worker.py")), self.pool.repo],
             stdin=subprocess.PIPE,
             stdout=subprocess.PIPE,
             env=env,
